@@ -31,6 +31,11 @@ pub enum Action {
     Repay { u: usize, b: usize, amt: u64, all: bool },
     CloseBalance { u: usize, b: usize },
     Liquidate { liquidator: usize, liquidatee: usize, asset: usize, liab: usize, amt: u64 },
+    /// the same liquidation with surplus observation accounts for the liquidator: after the sorted list of
+    /// its banks the seized-asset bank and the debt bank are listed once more (a correct program ignores
+    /// them; one that opens a second position for a bank needs them to commit)
+    /// `pad`: 0 = the seized-asset bank is listed twice in its place, 1 = the debt bank is, 2 = both once more at the end
+    LiquidatePadded { liquidator: usize, liquidatee: usize, asset: usize, liab: usize, amt: u64, pad: u8 },
     Bankruptcy { signer: Signer, u: usize, b: usize },
     /// a third party's receivership bracket on `liquidatee`: [init record if missing, start_liquidation, repay r_amt of
     /// `liab`, withdraw w_amt of `asset`, end_liquidation], signed by `liquidator`'s authority, tokens from / to its wallets
@@ -148,7 +153,11 @@ pub fn user_ix(w: &World, s: &Store, a: &Action, signer: Pubkey) -> Option<Ix> {
             ix::borrow(g, acct(*u), signer, bk.key, us.tokens[&bk.mint], bk.token_program, *amt, with_mint(w, *b, rem))
         }
         Action::CloseBalance { u, b } => ix::close_balance(g, acct(*u), signer, w.banks[*b].key),
-        Action::Liquidate { liquidator, liquidatee, asset, liab, amt } => {
+        Action::Liquidate { liquidator, liquidatee, asset, liab, amt } | Action::LiquidatePadded { liquidator, liquidatee, asset, liab, amt, .. } => {
+            let pad = match a {
+                Action::LiquidatePadded { pad, .. } => Some(*pad),
+                _ => None,
+            };
             let (lq_acct, le_acct) = (acct(*liquidator), acct(*liquidatee));
             let (ab, lb) = (&w.banks[*asset], &w.banks[*liab]);
             // liquidator ends with positions in both banks
@@ -165,6 +174,14 @@ pub fn user_ix(w: &World, s: &Store, a: &Action, signer: Pubkey) -> Option<Ix> {
             let mut lq_metas = vec![];
             for k in &lq_banks {
                 lq_metas.extend(w.observation(s, k));
+                if (pad == Some(0) && *k == ab.key) || (pad == Some(1) && *k == lb.key) {
+                    lq_metas.extend(w.observation(s, k));
+                }
+            }
+            if pad == Some(2) {
+                let (hi, lo) = if ab.key > lb.key { (ab.key, lb.key) } else { (lb.key, ab.key) };
+                lq_metas.extend(w.observation(s, &hi));
+                lq_metas.extend(w.observation(s, &lo));
             }
             let le_metas = w.risk_metas(s, &le_acct, None, None);
             let mut rem = w.mint_meta(lb);
@@ -248,7 +265,7 @@ pub fn default_signer(w: &World, a: &Action) -> Option<Pubkey> {
         Action::Deposit { u, .. } | Action::Withdraw { u, .. } | Action::Borrow { u, .. } | Action::Repay { u, .. } | Action::CloseBalance { u, .. } => {
             w.users[*u].authority
         }
-        Action::Liquidate { liquidator, .. } => w.users[*liquidator].authority,
+        Action::Liquidate { liquidator, .. } | Action::LiquidatePadded { liquidator, .. } => w.users[*liquidator].authority,
         Action::Bankruptcy { signer, u, .. } => signer_key(w, signer, Some(*u)),
         Action::Receivership { liquidator, .. } => w.users[*liquidator].authority,
         Action::Accrue { .. } | Action::CollectFees { .. } | Action::PulsePriceCache { .. } => w.payer,
